@@ -349,6 +349,12 @@ def check_basic(ck, tag, res, F, f0, fscale, start):
     return ok
 
 
+def same_iterate(ck, s, o, p, x0, cfg, extra, eg, sc):
+    """compiled run stopped by maxiter = eager nit sits at the eager result"""
+    sm = run_static(ck, s, o, p, x0, dict(cfg, maxiter=eg["nit"]), extra)
+    return sm["nit"] == eg["nit"] and float(np.abs(sm["x"] - eg["x"]).max()) <= 1e-8 * sc
+
+
 def _case(ck, i):
     r = i % 16
     u = int(ck.rng().integers(0, ck.pick(1, 10)))
@@ -462,6 +468,13 @@ def _case(ck, i):
                 ck.violation("newton:eager-vs-static-status", "eager and compiled Newton-CG return "
                              "different status", eager=eg["status"], static=sg["status"], cfg=cfg,
                              nit=(eg["nit"], sg["nit"]), nfev=(eg["nfev"], sg["nfev"]))
+            elif eg["nit"] != sg["nit"] and "absdelta" in cfg and eg["status"] == 0 and \
+                    sg["nit"] > eg["nit"] and same_iterate(ck, s, o, p, x0, cfg, extra, eg, sc):
+                ck.violation("newton:absdelta-convergence-eager-only",
+                             "with absdelta given the eager Newton-CG reports convergence at an iterate "
+                             "that the compiled one reaches identically but does not accept as converged "
+                             "(energy decrease < absdelta after exactly one line-search halving)",
+                             eager_nit=eg["nit"], static_nit=sg["nit"], eager_nfev=eg["nfev"], cfg=cfg)
             elif eg["nit"] != sg["nit"]:
                 ck.violation("newton:eager-vs-static-nit", "eager and compiled Newton-CG take a different "
                              "number of iterations", eager=eg["nit"], static=sg["nit"], cfg=cfg)
